@@ -1,6 +1,7 @@
 package conc
 
 import (
+	"bufio"
 	"fmt"
 	"strconv"
 	"testing"
@@ -15,7 +16,7 @@ type family struct {
 	wFeedCall, wFeedNote, wFeedBatch, wFeedInvalid, wFeedReply int
 	wFeedRaw                                                   int
 	wGate, wCancel, wStop, wPush, wCbCtx, wFeedErr, wRestart   int
-	wBuiltin                                                   int
+	wBuiltin, wSendFault                                       int
 	idPool                                                     []string
 	Ks                                                         []int
 	push, builtin                                              []bool
@@ -31,21 +32,22 @@ var families = map[string]family{
 		idPool: []string{"1", "2", "3", "4", "5", "6", "7", "8"}, Ks: []int{1, 2, 3, 5}, push: []bool{false}, builtin: []bool{true}, steps: 20},
 	"c07": {name: "c07", wFeedCall: 10, wFeedNote: 1, wFeedBatch: 5, wFeedInvalid: 2, wGate: 10, wCancel: 6, wBuiltin: 1,
 		idPool: []string{"1", "2", `"a"`}, Ks: []int{1, 2, 4}, push: []bool{false}, builtin: []bool{true, false}, steps: 22},
-	"c08": {name: "c08", wFeedCall: 6, wFeedNote: 5, wFeedBatch: 5, wFeedInvalid: 3, wFeedRaw: 2, wFeedReply: 1, wGate: 8, wCancel: 1, wStop: 3, wPush: 2, wFeedErr: 3, wRestart: 2,
+	"c08": {name: "c08", wFeedCall: 6, wFeedNote: 5, wFeedBatch: 5, wFeedInvalid: 3, wFeedRaw: 2, wFeedReply: 1, wGate: 8, wCancel: 1, wStop: 3, wPush: 2, wFeedErr: 3, wRestart: 2, wSendFault: 2,
 		idPool: []string{"1", "2", "3", "4"}, Ks: []int{1, 2, 4}, push: []bool{false, true}, builtin: []bool{true}, steps: 22},
 	"c09": {name: "c09", wFeedCall: 3, wFeedNote: 3, wFeedBatch: 2, wFeedReply: 10, wGate: 6, wStop: 1, wPush: 10, wCbCtx: 5, wFeedInvalid: 1,
 		idPool: []string{"1", "2", "3"}, Ks: []int{2, 4}, push: []bool{true, true, true, false}, builtin: []bool{true}, steps: 24},
-	"c10": {name: "c10", wFeedCall: 6, wFeedNote: 3, wFeedBatch: 6, wFeedInvalid: 2, wFeedRaw: 2, wFeedReply: 3, wGate: 10, wCancel: 2, wStop: 2, wPush: 5, wCbCtx: 2, wFeedErr: 2, wRestart: 1,
+	"c10": {name: "c10", wFeedCall: 6, wFeedNote: 3, wFeedBatch: 6, wFeedInvalid: 2, wFeedRaw: 2, wFeedReply: 3, wGate: 10, wCancel: 2, wStop: 2, wPush: 5, wCbCtx: 2, wFeedErr: 2, wRestart: 1, wSendFault: 1,
 		idPool: []string{"1", "2", "3", "4"}, Ks: []int{1, 3}, push: []bool{true, false}, builtin: []bool{true}, steps: 24},
 }
 
 type scen struct {
-	r      *srvRun
-	g      *rng
-	f      family
-	tok    int
-	alive  bool // the server has been started and not yet waited for
-	policy string
+	r        *srvRun
+	g        *rng
+	f        family
+	tok      int
+	alive    bool // the server has been started and not yet waited for
+	policy   string
+	sendFail bool
 }
 
 func (s *scen) newTok() string { s.tok++; return strconv.Itoa(s.tok) }
@@ -191,6 +193,10 @@ func (s *scen) step() {
 				r.callPush(true, "pc", pick(g, []string{"", `{"k":1}`, `[3]`}))
 			}
 		}},
+		{f.wSendFault, func() {
+			s.sendFail = !s.sendFail
+			r.sendFault(s.sendFail)
+		}},
 		{f.wFeedErr, func() {
 			switch g.intn(4) {
 			case 0:
@@ -275,6 +281,10 @@ func (s *scen) epilogue(restart bool) {
 	r.callWait()
 	r.drain(s.pickParked)
 	if restart {
+		if s.sendFail {
+			s.sendFail = false
+			r.sendFault(false)
+		}
 		r.start()
 		r.drain(s.pickParked)
 		r.feedMsgs(false, []member{mkCall("1", "g", s.newTok())}, false)
@@ -296,7 +306,7 @@ func (s *scen) epilogue(restart bool) {
 }
 
 // runServerScenario runs one scenario in its own synctest bubble and returns its log.
-func runServerScenario(t *testing.T, fam string, seed uint64, idx int) []string {
+func runServerScenario(t *testing.T, fam string, seed uint64, idx int, out *bufio.Writer) {
 	f, ok := families[fam]
 	if !ok {
 		t.Fatalf("unknown family %q", fam)
@@ -307,9 +317,8 @@ func runServerScenario(t *testing.T, fam string, seed uint64, idx int) []string 
 	if idx%3 == 0 {
 		policy = "fifo"
 	}
-	var lines []string
 	synctest.Test(t, func(t *testing.T) {
-		r := newSrvRun(cfg)
+		r := newSrvRun(cfg, out)
 		s := &scen{r: r, g: g, f: f, policy: policy}
 		jrpc2.VerifSetHook(r.sc.point)
 		defer jrpc2.VerifSetHook(nil)
@@ -337,9 +346,7 @@ func runServerScenario(t *testing.T, fam string, seed uint64, idx int) []string 
 		}
 		r.sc.off()
 		r.log.item("end")
-		lines = r.log.lines
 	})
-	return lines
 }
 
 var _ = fmt.Sprint
